@@ -242,5 +242,53 @@ def r4_history_lookups(chk: Check) -> None:
         chk.decide(any(dotted(c.func) == f"self.recorder.{meth}" and ceq(f, kwarg(c, "case_id"), "case_id") for c in body_calls(f)), "C18.R4", f, f"CheckContext.{meth} -> recorder.{meth}(case_id=case_id)", "the check context looks the history up somewhere else / with another id", f.loc())
 
 
+def r5_identifier_values_compared_exactly(chk: Check) -> None:
+    chk.rule("C18.R5", "EXACT(identifier values): in _is_prefix_operation the VALUES of path variables (`lhs.get(<segment>)` / `rhs.get(<segment>)`) decide whether two requests address the same resource; they are compared for equality of their string forms only - they never flow into the literal-segment heuristic (`rstrip('s')`: `users` ~ `user`) or any other normalising string method, otherwise `DELETE /tags/new` frees `/tags/news`", floor=2)
+    P = chk.project
+    fn = P.func("specs/openapi/checks.py:_is_prefix_operation")
+    NORMALISE = {"rstrip", "lstrip", "strip", "lower", "upper", "casefold", "startswith", "endswith", "removesuffix", "removeprefix", "replace", "title"}
+    gets = [c for c in body_calls(fn) if last_attr(c) == "get" and isinstance(c.func, ast.Attribute) and unparse(c.func.value) in params_of(fn.node)]
+    if len(gets) < 2:
+        chk.undecided("C18.R5", fn, "values of path variables", "`lhs.get(...)` / `rhs.get(...)` not found", fn.loc())
+        return
+    n = 0
+    for c in gets:
+        n += 1
+        construct = f"`{unparse(c)}` is only compared for equality"
+        # walk up: str(...) wrappers, then the consumer
+        node: ast.AST = c
+        par = parent(node)
+        while isinstance(par, ast.Call) and isinstance(par.func, ast.Name) and par.func.id in ("str", "repr") and node in par.args:
+            node, par = par, parent(par)
+        if isinstance(par, ast.Compare) and all(isinstance(o, (ast.Eq, ast.NotEq)) for o in par.ops):
+            chk.ok("C18.R5", fn, construct, unparse(par, 60), fn.loc(c))
+            continue
+        # bound to a name (possibly by tuple assignment): every later use of that name must be an equality comparison
+        tgt_names: set[str] = set()
+        st = stmt_of(c)
+        if isinstance(st, ast.Assign):
+            for t in st.targets:
+                if isinstance(t, ast.Name):
+                    tgt_names.add(t.id)
+                elif isinstance(t, ast.Tuple) and isinstance(st.value, ast.Tuple) and len(t.elts) == len(st.value.elts):
+                    for te, ve in zip(t.elts, st.value.elts):
+                        if isinstance(te, ast.Name) and is_within(c, ve):
+                            tgt_names.add(te.id)
+        if not tgt_names:
+            chk.undecided("C18.R5", fn, construct, f"consumer `{unparse(par, 60) if par is not None else '?'}` not recognised", fn.loc(c))
+            continue
+        bad = None
+        for x in walk_body(fn.node):
+            if isinstance(x, ast.Call) and isinstance(x.func, ast.Attribute) and x.func.attr in NORMALISE and isinstance(x.func.value, ast.Name) and x.func.value.id in tgt_names and x.lineno >= st.lineno:
+                bad = x
+                break
+        if bad is not None:
+            chk.violation("C18.R5", fn, construct,
+                          f"the value is bound to `{sorted(tgt_names)[0]}`, which then goes through `{unparse(bad, 50)}`: identifier values are compared with the singular/plural heuristic meant for literal path segments - ids that differ only by trailing `s` (`new` / `news`, `tag` / `tags`) count as the same resource: use_after_free reports `GET /tags/news` after `DELETE /tags/new`, ensure_resource_availability misjudges the DELETE in between",
+                          fn.loc(bad))
+        else:
+            chk.ok("C18.R5", fn, construct, f"bound to {sorted(tgt_names)}, compared exactly", fn.loc(c))
+
+
 def rules(tier: str) -> list:  # type: ignore[type-arg]
-    return [r1_own_response, r2_prefix_arguments, r3_accusation_guards, r4_history_lookups]
+    return [r1_own_response, r2_prefix_arguments, r3_accusation_guards, r4_history_lookups, r5_identifier_values_compared_exactly]
